@@ -5,7 +5,11 @@ from concurrent.futures import ThreadPoolExecutor
 units=verus_engine.load_units()
 def run(name):
     s=common.Scratch("au_"+name)
-    res=verus_engine.run_unit(s,name,units[name])
+    try:
+        res=verus_engine.run_unit(s,name,units[name])
+    except common.Undecided as ex:
+        # whole-unit loss (e.g. a sliced struct field was renamed): every obligation of the unit is undecided, never an alarm
+        return name,0.0,{"<unit>":str(ex)},[("<whole unit>","undecided",str(ex)[:200])]
     bad=[]
     for it in units[name]["items"]:
         key = it.get("key") or it.get("fn_name") or (it.get("name") if it.get("kind")=="fn" else None)
